@@ -14,7 +14,11 @@ P = {'id': 'C12',
               'kasai_correct',
               'bwt_correct',
               'bwt_perm',
-              'c12_pipeline'],
+              'c12_pipeline',
+              'sa_equal_range_exact',
+              'sa_match_continuation_longest',
+              'da_match_is_continuation',
+              'da_match_max_length_longest'],
  'trusted': ['modelled (M+S): src/algorithms/suffix_array.rs SuffixArray::{compare_suffix_pattern, lower_bound, upper_bound, search_range, search}, '
              'SuffixArrayBuilder::{select_algorithm, build, build_sequential, build_parallel, dc3_construct, divsufsort_construct, '
              'larsson_sadakane_construct, fallback_sort}, LcpArray::compute_lcp_kasai, EnhancedSuffixArray::compute_bwt; '
